@@ -28,6 +28,8 @@ def mk(spec):
 
 SPEC = st.one_of(
     st.tuples(st.just('int'), st.integers(0, 3)),
+    st.tuples(st.just('int'), st.sampled_from([-1, -2, 2 ** 61 - 1])),       # unequal values with equal hashes
+    st.tuples(st.just('tuple'), st.sampled_from([-1, -2]), st.just(0)),
     st.tuples(st.just('big'), st.integers(0, 2)),
     st.tuples(st.just('tuple'), st.integers(0, 1), st.integers(0, 1)),
     st.tuples(st.just('str'), st.sampled_from(['', 'ab', 'abc', 'ba'])),
